@@ -11,6 +11,30 @@ def sto_name(b):
     return "BINARY" if b else "TEXT"
 
 
+# date formats outside the model's token language (%Y %m %d %H %M %S %f, punctuation and blanks): month and weekday names in full
+# (variable width) and abbreviated, day of the year, 12-hour clock with AM/PM, letters as literals. Cases that use one are
+# judged by the oracle only (comparable() is False for them).
+NAMED_DATE_FORMATS = ["%d %B %Y", "%A %d/%m/%Y", "%B %d, %Y %H:%M", "%d-%b-%Y", "%a %d %b %Y %H:%M:%S", "%Y-%j", "%Y%j %H%M",
+                      "%d/%m/%Y %I:%M %p", "%Y-%m-%dT%H:%M:%S", "%Hh%M %d/%m/%Y", "%A, %d %B %Y", "%B/%Y", "%Y %B %d %A"]
+_WIDEST = {}
+
+
+def widest(fmt):
+    """the widest rendering of a format over a whole year (every month and weekday name occurs)"""
+    if fmt not in _WIDEST:
+        d0 = datetime.datetime(2024, 1, 1, 13, 44, 55, 123456)
+        _WIDEST[fmt] = max(len((d0 + datetime.timedelta(days=i)).strftime(fmt)) for i in range(366))
+    return _WIDEST[fmt]
+
+
+def in_model_language(fmt):
+    try:
+        fl.dates.tokens(fmt)
+        return True
+    except fl.dates.Unsupported:
+        return False
+
+
 class CHECK(Check):
     pid = "C01"
     entry = "LINE"
@@ -27,7 +51,10 @@ class CHECK(Check):
             "(fields, values, delimiter, storage) and must behave as the constructor-built line. Plus an exhaustive "
             "grid of float fields (size<=6, dd<=3) x a boundary value grid. Value lists that do not fit (model's fits) "
             "are counted and skipped. non-trivial = at least one non-missing float, date or multi-field; distinct = hash"
-            " Later additions: an E-notation edge stream (subnormals, +-400 ulps around every power of ten, 0-17 digits, top of the range); 1-3 earlier rows written/read through the same Line (also read in the last declared date format); half of the value lists handed over as numpy scalars / integral floats / bool / pandas Timestamp / pd.NA; ambiguous date-format lists.")
+            " Later additions: an E-notation edge stream (subnormals, +-400 ulps around every power of ten, 0-17 digits, top of the range); 1-3 earlier rows written/read through the same Line (also read in the last declared date format); half of the value lists handed over as numpy scalars / integral floats / bool / pandas Timestamp / pd.NA; ambiguous date-format lists; "
+            "date formats outside the model's token language (full and abbreviated month / weekday names, day of the year, 12-hour "
+            "clock with AM/PM, letters as literals; alone or anywhere in a format list) over every month and weekday, in lines whose "
+            "values fit by construction - judged by the oracle only.")
 
     # a case: {fields, values, setters: None | [...]}
     def gen(self, tier, rng):
@@ -78,6 +105,54 @@ class CHECK(Check):
                 # every row of its kind, and what it writes must not depend on what it wrote before
                 case["history"] = [[fl.gen_value(rng, fd) for fd in fs] for _ in range(rng.randint(1, 3))]
             yield case
+        # date formats the model has no tokens for (names of months and weekdays, day of the year, AM/PM, letter literals),
+        # alone or first/later in a format list, among literal / integer / fixed-notation float / modelled date fields.
+        # Every value fits by construction (no model run decides it): see gen_named.
+        for _ in range(500 if tier == "quick" else 15000):
+            yield self.gen_named(rng)
+
+    def gen_named(self, rng):
+        fs = fl.gen_layout(rng, nmax=5, sci=False)
+        idx = [i for i, fd in enumerate(fs) if fd["k"] == "date"]
+        if not idx:
+            j = rng.randrange(len(fs))
+            fs[j] = {"k": "date", "size": 0, "start": fs[j]["start"], "formats": [], "aslist": False}
+            idx = [j]
+        # widths change: lay the fields out again, keeping their order of declaration
+        order = sorted(range(len(fs)), key=lambda i: fs[i]["start"])
+        pos = rng.randint(0, 3)
+        for i in order:
+            fd = fs[i]
+            if i in idx and (not fd["formats"] or rng.random() < 0.8):
+                n = rng.choice([1, 1, 2, 3])
+                fm = [rng.choice(NAMED_DATE_FORMATS)] + [rng.choice(NAMED_DATE_FORMATS + fl.DATE_FORMATS) for _ in range(n - 1)]
+                if n > 1 and rng.random() < 0.3:
+                    fm[0], fm[-1] = fm[-1], fm[0]
+                fd["formats"] = fm
+                fd["aslist"] = n != 1 or rng.random() < 0.3
+                fd["size"] = widest(fm[0]) + rng.randint(0, 3)
+            fd["start"] = pos
+            pos += fd["size"] + rng.choice([0, 0, 1, 3])
+
+        def value(fd):
+            v = fl.gen_value(rng, fd)
+            if fd["k"] == "float" and v is not None and v[0] == "float":
+                # keep only floats whose rendering with all declared decimals leaves a spare column: they fit on any reading
+                if len("{:.{d}f}".format(fl.b2f(v[1]), d=fd["dd"])) + 1 > fd["size"]:
+                    return None
+            if fd["k"] == "date" and v is not None and v[0] == "date" and rng.random() < 0.5:
+                # every month and every weekday, not only what a uniform day of the month gives
+                y, _, _, hh, mm, ss, us = v[1]
+                d = datetime.datetime(y, rng.randint(1, 12), 1, hh, mm, ss, us) + datetime.timedelta(days=rng.randint(0, 27))
+                v = ["date", fl.dates.dt_tuple(d)]
+            return v
+        case = {"fields": fs, "values": [value(fd) for fd in fs], "setters": self.gen_setters(rng, fs) if rng.random() < 0.5 else None}
+        if rng.random() < 0.4:
+            case["history"] = [[value(fd) for fd in fs] for _ in range(rng.randint(1, 3))]
+        return case
+
+    def comparable(self, case):
+        return all(in_model_language(f) for fd in case["fields"] if fd["k"] == "date" for f in fd["formats"])
 
     @staticmethod
     def alt_text(case, hv):
@@ -323,6 +398,8 @@ class CHECK(Check):
             d["kind_" + fd["k"]] = d.get("kind_" + fd["k"], 0) + 1
             if v is None or v[0] in ("nan", "nat"):
                 d["missing"] = d.get("missing", 0) + 1
+            if fd["k"] == "date" and not all(in_model_language(f) for f in fd["formats"]):
+                d["date_format_outside_model_language"] = d.get("date_format_outside_model_language", 0) + 1
             if fd["k"] == "float":
                 key = "float_%s_sep%s" % (fd["fmt"], "dot" if fd["sep"] == "." else "comma")
                 d[key] = d.get(key, 0) + 1
